@@ -60,7 +60,7 @@ def check(prop, tier, seed, relock=False, only=None, jobs=None):
             if kind == "pyse":
                 from engine.pyse import adapter
 
-                it, nb = adapter.run(prop, tier, seed, only=only, jobs=jobs)
+                it, nb = adapter.run(prop, tier, seed, only=only, jobs=jobs, include=eng.get("include_props", ()))
                 items += it
                 notes += nb
             elif kind == "cvc":
@@ -96,8 +96,12 @@ def check(prop, tier, seed, relock=False, only=None, jobs=None):
         by_clause.setdefault(it["clause"], []).append(it)
 
     if relock:
+        # slow queries are the unstable ones: a clause whose discharge needs more than
+        # SLOW_S seconds on the pinned tree is not claimed (it stays in the evidence as generated-not-claimed)
+        SLOW_S = float(os.environ.get("VERIF_SLOW_S", "8"))
         newc = sorted(c for c, lst in by_clause.items() if all(x["status"] == "proved" for x in lst)
-                      and not any(x.get("concrete_failures") for x in lst))
+                      and not any(x.get("concrete_failures") for x in lst)
+                      and (c.startswith("specpart.c:") or c.startswith("lean:") or max(x.get("time_s", 0) for x in lst) <= SLOW_S))
         lock[prop] = newc
         with open(LOCK, "w") as f:
             json.dump(lock, f, indent=1, sort_keys=True)
@@ -159,7 +163,7 @@ def check(prop, tier, seed, relock=False, only=None, jobs=None):
                 violations.append((c, c_replay, False, x["status"] + " (concrete input found by the bounded harness)"))
             else:
                 violations.append((c, path, True, x["status"]))
-        elif unproved:
+        elif unproved or c not in claimed:
             undecided.append(c)
     # 2. claimed clauses that were not generated at all (vacuity guard)
     missing = sorted(c for c in claimed if c not in by_clause)
